@@ -16,6 +16,19 @@ Theorem C13_placement :
   forall p : str, wf_hasanta p = true -> model_reph p = reph_spec p.
 Proof. exact reph_placement. Qed.
 
+(** The same in the words of the property: p = q ++ conjunct ++ optional vowel (sign) ++ optional chandrabindu, the
+    conjunct maximal (q does not end in hasanta): the reph goes immediately before the conjunct. *)
+Theorem C13_placement_grammar :
+  forall q cj v ch : str,
+    conjunct cj -> (v = [] \/ exists x, v = [x] /\ is_vowel x = true) -> (ch = [] \/ ch = [B_CHANDRA]) ->
+    (last q 0 =? B_HASANTA) = false -> wf_hasanta (q ++ cj ++ v ++ ch) = true ->
+    model_reph (q ++ cj ++ v ++ ch) = q ++ reph ++ cj ++ v ++ ch.
+Proof. intros q cj v ch H1 H2 H3 H4 H5. rewrite (reph_placement _ H5). apply reph_placement_grammar; assumption. Qed.
+
+(** ... and the end of p otherwise (no final conjunct found): *)
+Theorem C13_placement_otherwise : forall p : str, reph_span (rev p) = O -> reph_spec p = p ++ reph.
+Proof. intros p H. unfold reph_spec. rewrite H, PeanoNat.Nat.sub_0_r, firstn_all, skipn_all. reflexivity. Qed.
+
 (** With the option off (and old vowel-sign order off) the reph key simply appends its value. *)
 Theorem C13_option_off_appends :
   forall o rb pend, o_old_reph o = false -> o_kar_order o = false ->
@@ -49,5 +62,6 @@ Proof. vm_compute. repeat split; reflexivity. Qed.
 
 Print Assumptions C13_conservation.
 Print Assumptions C13_placement.
+Print Assumptions C13_placement_grammar.
 Print Assumptions C13_option_off_appends.
 Print Assumptions C13_option_on_is_reph.
